@@ -7,8 +7,9 @@ definition and from nothing in the code or the model:
     std. dev. σ   = the non-negative number whose square is σ²
 
 Nothing here is REAL (binary64) arithmetic, nothing is a running sum. `Lemmas/Variance.lean` relates it to what the
-model — and the code — compute (`Spec.Agg.populationVariance`: the one-pass formula `(Σx² − (Σx)²/n)/n` evaluated step by
-step in REAL arithmetic), `Props/C04Variance.lean` states what is proved and what is FALSE.
+model — and the code — compute (`Spec/Agg.lean`: for INT arguments the REAL quotient of the exact numerator `n·Σx² − (Σx)²` by the
+exact denominator `n²`, `intVariance`; for REAL arguments the one-pass formula `(Σx² − (Σx)²/n)/n` evaluated step by step in REAL
+arithmetic and clamped at zero, `realVariance`), `Props/C04Variance.lean` states what is proved.
 
 What the property sentence ("STDDEV / VARIANCE over the argument's non-NULL values") and the README (`stddev(x)`,
 `variance(x)`) do NOT fix, and this file therefore has to choose — it chooses as the code does and says so:
